@@ -188,6 +188,25 @@ def check_contains(res, out, case, sub, site):
                           f"(len {L})", case, dict(sub, k=str(k)))
     res.hits["contains inside"] += n_in
     res.hits["contains outside"] += n_out
+    # the same instants expressed on other time scales denote the same times
+    margin = F(1, 10 ** 9) / 86400
+    for scale in ("tai", "tt"):
+        try:
+            r2 = np.asarray(out.contains(getattr(tt, scale)))
+        except Exception as e:
+            res.violation(f"{site}|contains probe on another scale raised", f"{scale}: {type(e).__name__}: {e}", case, sub)
+            continue
+        res.transitions += 1
+        for i, k in enumerate(ks):
+            d = F(float(tt.jd1[i])) + F(float(tt.jd2[i])) - Ts
+            if abs(d) <= margin or abs(d - span) <= margin:
+                continue
+            if bool(r2[i]) != (0 <= d < span):
+                res.violation(f"{site}|contains probe on another scale", f"contains((start + {k} samples).{scale}) = {bool(r2[i])}, "
+                              f"expected {0 <= d < span} (len {L})", case, dict(sub, k=str(k), scale=scale))
+                break
+        else:
+            res.hits["contains probe on another time scale"] += 1
     # exact edges, by identity of the signal's own attributes
     res.transitions += 4
     a = bool(out.contains(out.start_time))
@@ -589,7 +608,7 @@ def main(argv=None):
     return report.run_check(
         PID, gen_cases=gen_cases, check_case=check_case, describe=describe,
         required_hits=["negative start bound", "out-of-range bound clamped", "stepped slice", "empty result",
-                       "no start time", "contains inside", "contains outside", "shift crop exceeds length",
+                       "no start time", "contains inside", "contains outside", "contains probe on another time scale", "shift crop exceeds length",
                        "mixed-sign shift crop", "block shorter than sweep", "incoherent traced",
                        "incoherent front crop", "bfs: state reached again by another path", "assignment histories"],
         assumptions=["astropy Time two-double (jd1, jd2) is the representation of absolute time; budget 2 ulp_T (2^-52 day) "
